@@ -917,8 +917,17 @@ class Evaluator:
             if isinstance(v, (list, STuple)) and dotted in ("bytes", "bytearray"):
                 items = v if isinstance(v, list) else v.items
                 if all(isinstance(x, Lin) for x in items):
-                    # bytes([a, b]): one octet per element
-                    return SBytes([Seg("int", Lin(1), value=x, order="little", signed=False, node=e) for x in items])
+                    # bytes([a, b]): one octet per element; runs of constant octets are literal bytes
+                    segs_: t.List[Seg] = []
+                    for x in items:
+                        if x.is_const() and 0 <= x.const <= 255:
+                            if segs_ and segs_[-1].kind == "lit":
+                                segs_[-1] = Seg("lit", segs_[-1].width + Lin(1), value=segs_[-1].value + bytes([x.const]))
+                            else:
+                                segs_.append(Seg("lit", Lin(1), value=bytes([x.const])))
+                        else:
+                            segs_.append(Seg("int", Lin(1), value=x, order="little", signed=False, node=e))
+                    return SBytes(segs_)
             if isinstance(v, Lin) and dotted == "bytes":
                 # bytes(n): n zero bytes, the same value as b"\x00" * n
                 return self._repeat_bytes(t.cast(SBytes, self.const_to_value(b"\x00")), v, e)
